@@ -383,8 +383,13 @@ def add_post(c):
     regs = [e for e in t if e[0] == 'register']
     proxy = c._params['func_proxy']
     remembered = [e for e in stores if e[1] == 'self.wrapped_funcs']
+    notif = [e for e in t if e[0] == 'notif-register']
     ok = (len(remembered) == 1 and remembered[0][2] is proxy and remembered[0][3].k == 'obj'
-          and remembered[0][3].oid == 'the-wrapped-func' and len([e for e in t if e[0] == 'wrap']) == 1)
+          and remembered[0][3].oid == 'the-wrapped-func' and len([e for e in t if e[0] == 'wrap']) == 1
+          # the dispatcher subscribes to the proxy's 'function' changes (that is how a changed function gets re-wrapped)
+          and len(notif) == 1 and len(notif[0][1]) == 4 and notif[0][1][0] is proxy
+          and notif[0][1][1].k == 'str' and notif[0][1][1].py == 'function'
+          and notif[0][1][2].k == 'ref' and notif[0][1][2].oid == 'self')
     if not ok:
         return z3.BoolVal(False)
     new_lists = [e for e in stores if e[1] == 'self.active']
